@@ -2,9 +2,10 @@
 mod common;
 use libfuzzer_sys::fuzz_target;
 fuzz_target!(|data: &[u8]| {
-    if data.first().map(|b| b % 2 == 0).unwrap_or(true) {
-        common::drive("C04", &data[1.min(data.len())..], gpa_verif::props::c04::strategy(), gpa_verif::props::c04::eval);
+    let mut w = common::Words::new(data);
+    if w.next() % 2 == 0 {
+        common::judge("C04", gpa_verif::props::c04::case_from_words(&mut w, false), gpa_verif::props::c04::eval);
     } else {
-        common::drive("C04", &data[1..], gpa_verif::props::c04::own_strategy(), gpa_verif::props::c04::eval_own);
+        common::judge("C04", gpa_verif::props::c04::case_from_words(&mut w, true), gpa_verif::props::c04::eval_own);
     }
 });
